@@ -180,7 +180,7 @@ proof {
     lemma_boff_mono(inp, k0, inp.len() as int);
 }
 '''),
-        Ins('after_stmt', 'let offset = offset.min(self.input.len());', '''
+        Ins('after_stmt', 'let offset = $_;', '''
 proof {
     assert(offset == boff(inp, k0));
     axiom_utf8_boundary(self.input, k0);
@@ -296,7 +296,7 @@ proof {
     assert(c == inp[n] && i + self.offset == boff(inp, n));
 }
 ''', label='advance_to.char_read'),
-        Ins('after_stmt', 'new_position = i;', '''
+        Ins('after_stmt', 'new_position = $_;', '''
 proof {
     // bookkeeping for the char just consumed
     if lso0 != line_start_offsets@ {
@@ -312,7 +312,7 @@ proof {
     }
     n = n + 1;
 }
-''', label='advance_to.consume'),
+''', occ=2, label='advance_to.consume'),
         Ins('after_stmt', 'for (i, c) in self.char_indices.by_ref() {', '''
 let ghost n1 = n;
 let ghost lo_before = self.line_offsets@;
@@ -478,7 +478,7 @@ proof {
 let ghost lo_b = self.line_offsets@;
 let ghost lc_b = self.last_char;
 ''', label='next_match.skip_char'),
-        Ins('after_stmt', 'self.record_line_offset(i + self.offset, c);', '''
+        Ins('after_stmt', 'self.record_line_offset($_);', '''
 proof {
     assert(cursor(*self, m0, n + 1));
     lemma_cur_is(*self, m0, n + 1);
@@ -725,7 +725,7 @@ proof {
     }
 }
 ''', label='peek_n.matched'),
-        Ins('after_stmt', 'Self::advance_char_indices_beyond_match(&mut char_indices, matched);', '''
+        Ins('after_stmt', 'Self::advance_char_indices_beyond_match($_);', '''
 let ghost k = choose|k: int| 0 <= k <= rem_b.len() && char_indices.remaining() == rem_b.skip(k)
     && #[trigger] adv_k(rem_b, m_rel.span.start as int, m_rel.span.end as int, k);
 proof {
@@ -734,7 +734,7 @@ proof {
     lemma_ci_seq_skip(inp, m0, q, k);
 }
 ''', label='peek_n.advanced'),
-        Ins('after_stmt', 'matches.push(matched);', '''
+        Ins('after_stmt', 'matches.push($_);', '''
 proof {
     lemma_find_post_shift(cur_dfa(s0), cur_cls(s0), inp.skip(q), (boff(inp, q) - boff(inp, m0)) as nat, boff(inp, m0), m_rel, matched);
     assert(tok_at(s0, inp, q, matched));
